@@ -299,7 +299,7 @@ fn run_phase(evs: &[Ev], with_main: Option<Box<dyn FnOnce()>>, detect_stuck: boo
         let p = progress.load(std::sync::atomic::Ordering::SeqCst);
         if p != last.1 {
           last = (std::time::Instant::now(), p);
-        } else if last.0.elapsed() >= Duration::from_secs(4) {
+        } else if last.0.elapsed() >= Duration::from_secs(20) {
           break;
         }
       }
@@ -493,7 +493,7 @@ fn parent(toks: &[&str]) -> String {
   // the child announces itself once it runs (an overloaded machine can take seconds to exec and
   // relocate it); the 15 s watchdog covers the scenario only
   let ready = matches!(rx.recv_timeout(Duration::from_secs(120)), Ok(l) if l == "READY");
-  let res = if ready { rx.recv_timeout(Duration::from_secs(15)).map_err(|e| e == smpsc::RecvTimeoutError::Timeout) } else { Err(false) };
+  let res = if ready { rx.recv_timeout(Duration::from_secs(90)).map_err(|e| e == smpsc::RecvTimeoutError::Timeout) } else { Err(false) };
   match res {
     Ok(s) => {
       let ok = ch.wait().map(|st| st.success()).unwrap_or(false);
